@@ -9,8 +9,8 @@ import (
 	"github.com/attestantio/go-eth2-client/spec"
 	"github.com/attestantio/go-eth2-client/spec/phase0"
 	vouchmock "github.com/attestantio/vouch/mock"
-	mockaccountmanager "github.com/attestantio/vouch/services/accountmanager/mock"
 	dirkam "github.com/attestantio/vouch/services/accountmanager/dirk"
+	mockaccountmanager "github.com/attestantio/vouch/services/accountmanager/mock"
 	walletam "github.com/attestantio/vouch/services/accountmanager/wallet"
 	mockattestationaggregator "github.com/attestantio/vouch/services/attestationaggregator/mock"
 	"github.com/attestantio/vouch/services/attester"
@@ -49,7 +49,10 @@ func c17MoreScenarios() []c17Scn {
 		return []func(){
 			func() { _ = vm.RefreshValidatorsFromBeaconNode(ctx, []phase0.BLSPubKey{k1, k2}) },
 			func() { _ = vm.ValidatorsByPubKey(ctx, []phase0.BLSPubKey{k1, k2}) },
-			func() { _ = vm.ValidatorsByIndex(ctx, []phase0.ValidatorIndex{3, 7}); _, _ = vm.ValidatorStateAtEpoch(ctx, 3, 1) },
+			func() {
+				_ = vm.ValidatorsByIndex(ctx, []phase0.ValidatorIndex{3, 7})
+				_, _ = vm.ValidatorStateAtEpoch(ctx, 3, 1)
+			},
 		}
 	}})
 
@@ -67,7 +70,10 @@ func c17MoreScenarios() []c17Scn {
 		return []func(){
 			func() { svc.VerifRefreshAccounts(ctx) },
 			func() { _, _ = svc.ValidatingAccountsForEpoch(ctx, 1) },
-			func() { _, _ = svc.ValidatingAccountsForEpochByIndex(ctx, 1, []phase0.ValidatorIndex{3, 7}); _, _ = svc.AccountByPublicKey(ctx, k2) },
+			func() {
+				_, _ = svc.ValidatingAccountsForEpochByIndex(ctx, 1, []phase0.ValidatorIndex{3, 7})
+				_, _ = svc.AccountByPublicKey(ctx, k2)
+			},
 		}
 	}})
 
@@ -85,7 +91,10 @@ func c17MoreScenarios() []c17Scn {
 		return []func(){
 			func() { svc.VerifRefreshFromWallets(ctx, []e2wtypes.Wallet{w2}) },
 			func() { _, _ = svc.ValidatingAccountsForEpoch(ctx, 1) },
-			func() { _, _ = svc.ValidatingAccountsForEpochByIndex(ctx, 1, []phase0.ValidatorIndex{3, 7}); _, _ = svc.AccountByPublicKey(ctx, k2) },
+			func() {
+				_, _ = svc.ValidatingAccountsForEpochByIndex(ctx, 1, []phase0.ValidatorIndex{3, 7})
+				_, _ = svc.AccountByPublicKey(ctx, k2)
+			},
 		}
 	}})
 
